@@ -137,6 +137,15 @@ def cases_plain(tier, seed):
                 ops += deliver(True, raw + R.rbytes(rnd, k), "ext:%d" % k)
                 ops += deliver(True, raw + [0] * k, "ext0:%d" % k)
             cs.append(Case("trunc-%d-%s" % (mem, name), ops, ("truncate-extend", name)))
+            # the same extensions for an instance whose frame block holds this frame exactly (and with one octet to spare):
+            # what does not fit any more must be noticed, not dropped
+            for spare in (0, 1):
+                ops = [R.cfg(mem, "serial", R.F + len(raw) + spare), "rp.backend 0 0 1"] + deliver(True, raw)
+                for k in range(1, 5):
+                    ops += deliver(True, raw + R.rbytes(rnd, k), "ext:%d" % k)
+                    ops += deliver(True, raw + [0] * k, "ext0:%d" % k)
+                ops += deliver(True, raw)
+                cs.append(Case("fit-%d-%s-%d" % (mem, name, spare), ops, ("truncate-extend", "exact-block", name)))
     # damage on the wire (behind the SLIP encoder / inside the length prefix) and sources that run dry or fail in the
     # middle of a frame: the framing layer itself reports the failure.  The service loop reuses one RPMaybeFrame: a
     # request was served just before, and nothing of it may be served again.
